@@ -33,9 +33,13 @@ pub fn read_dir<P: AsRef<str>>(d: P) -> io::Result<std::vec::IntoIter<io::Result
     for n in fs().iter() { if n.path.starts_with(&pre) && !n.path[pre.len()..].contains('/') { v.push(Ok(DirEntry { p: n.path.clone() })); } }
     Ok(v.into_iter())
 }
-pub struct Path { s: str }
-impl Path { pub fn new<S: AsRef<str> + ?Sized>(s: &S) -> &Path { unsafe { &*(s.as_ref() as *const str as *const Path) } }
-    pub fn exists(&self) -> bool { let pre = format!("{}/", &self.s); find(&self.s).is_some() || fs().iter().any(|n| n.path.starts_with(&pre)) } }
+pub struct Path { s: String }
+impl Path { pub fn new<S: AsRef<str> + ?Sized>(s: &S) -> Path { Path { s: s.as_ref().to_string() } }
+    pub fn exists(&self) -> bool {
+        if find(&self.s).is_some() { return true; }
+        let pre = format!("{}/", &self.s); let f = fs(); let mut i = 0;
+        while i < f.len() { if f[i].path.starts_with(&pre) { return true; } i += 1; }
+        false } }
 pub struct OpenOptions { r: bool, w: bool, a: bool, c: bool }
 impl OpenOptions {
     pub fn new() -> Self { OpenOptions { r: false, w: false, a: false, c: false } }
@@ -51,10 +55,10 @@ pub struct File { path: String, pos: u64, append: bool }
 impl File {
     pub fn open<P: AsRef<str>>(p: P) -> io::Result<File> { OpenOptions::new().read(true).open(p) }
     pub fn metadata(&self) -> io::Result<Metadata> { metadata(&self.path) }
-    fn put(&self, buf: &[u8], at: u64) { if let Some(i) = find(&self.path) { let d = &mut fs()[i].data; let at = at as usize; if d.len() < at + buf.len() { d.resize(at + buf.len(), 0); } d[at..at + buf.len()].copy_from_slice(buf); } }
+    fn put(&self, buf: &[u8], at: u64) { if let Some(i) = find(&self.path) { let d = &mut fs()[i].data; let at = at as usize; while d.len() < at + buf.len() { d.push(0); } let mut j = 0; while j < buf.len() { d[at + j] = buf[j]; j += 1; } } }
 }
 impl Read for File { fn read(&mut self, buf: &mut [u8]) -> io::Result<usize> {
-    match find(&self.path) { None => Ok(0), Some(i) => { let d = &fs()[i].data; let p = self.pos as usize; if p >= d.len() { return Ok(0); } let n = std::cmp::min(buf.len(), d.len() - p); buf[..n].copy_from_slice(&d[p..p + n]); self.pos += n as u64; Ok(n) } } } }
+    match find(&self.path) { None => Ok(0), Some(i) => { let d = &fs()[i].data; let p = self.pos as usize; if p >= d.len() { return Ok(0); } let n = if buf.len() < d.len() - p { buf.len() } else { d.len() - p }; let mut j = 0; while j < n { buf[j] = d[p + j]; j += 1; } self.pos += n as u64; Ok(n) } } } }
 impl Write for File {
     fn write(&mut self, buf: &[u8]) -> io::Result<usize> {
         let at = if self.append { match find(&self.path) { Some(i) => fs()[i].data.len() as u64, None => 0 } } else { self.pos };
@@ -63,6 +67,7 @@ impl Write for File {
 }
 impl Seek for File { fn seek(&mut self, s: SeekFrom) -> io::Result<u64> {
     let len = match find(&self.path) { Some(i) => fs()[i].data.len() as u64, None => 0 };
-    self.pos = match s { SeekFrom::Start(n) => n, SeekFrom::End(n) => (len as i64 + n) as u64, SeekFrom::Current(n) => (self.pos as i64 + n) as u64 }; Ok(self.pos) } }
+    self.pos = match s { SeekFrom::Start(n) => n, SeekFrom::End(n) => (len as i64 + n) as u64, SeekFrom::Current(n) => (self.pos as i64 + n) as u64 }; Ok(self.pos) }
+    fn stream_position(&mut self) -> io::Result<u64> { Ok(self.pos) } }
 pub trait FileExt { fn write_at(&self, buf: &[u8], off: u64) -> io::Result<usize>; }
 impl FileExt for File { fn write_at(&self, buf: &[u8], off: u64) -> io::Result<usize> { if alive() { self.put(buf, off); } Ok(buf.len()) } }
